@@ -45,10 +45,10 @@ CHECKS = {
             "Category oracle is Python's unicodedata; code points on which unicodedata and the regex module disagree are counted as unresolved."),
     "C12": (MC, "4.C12", "explicit-state BFS over call histories + exhaustive generator-step interleavings + preemption-bounded 2-thread schedule exploration (settrace scheduler; call granularity, plus line granularity directed at shared-state write points) on the real code",
             "All histories up to the depth bound, all merges of two short streams, and all schedules up to the preemption bound are executed on the real code and compared with a fresh-process reference table; module state is fingerprinted after every operation.",
-            "Preemption bound 1; quick: call granularity + line granularity at profiled write points of module-level state, thorough: every line point for two pairs; hash seeds are an enumerated list; reference table from one fresh interpreter per pool entry; bounds as reported in the evidence."),
+            "Preemption bound 1; quick: call granularity + line granularity at profiled write points of module-level state, thorough: every line point for two pairs; hash seeds are an enumerated list; reference table from one fresh interpreter per pool entry; every case runs in a forked child of a worker that imported the library but never parsed (no carry-over between cases); directed three-party histories (open stream, finished call, another finished call, drain) beyond the depth bound; bounds as reported in the evidence."),
     "C13": (FE, "4.C13", "exhaustive expiry-point enumeration with a virtual clock",
             "The deadline is placed between every two consecutive clock events of a run (virtual perf_counter; three clock models: reads only, reads+scorer/rule ticks, and ticks with the shipped scorer object passed as is and rows counted at the model); prefix property, no-raise, best-of-prefix and bounded post-deadline work (<=2 initial scorings, <=1 partial parse touched) are checked at every expiry point.",
-            "Time only advances at clock reads; inputs are a fixed family incl. n repeated ambiguous tokens."),
+            "Time only advances at clock reads; inputs are a fixed family incl. n repeated ambiguous tokens; combinations with more than 800 (quick) / 6000 (thorough) expiry points are listed in the evidence and not explored; rule-applicability analyses counted at PartialParse._filter_rules; an unlimited stream interleaved with timed parses must stay complete."),
     "C14": (EXPL, "4.C14", "bounded-exhaustive comparison of ctparse() with list(ctparse_gen()) over texts x option vectors",
             "The single-result call must equal a maximal-score element of the stream for every enumerated text and option vector.",
             "Text space bounded as in C01; Random scorer seeded identically for both entry points."),
